@@ -104,31 +104,73 @@ Qed.
 
 (* ---------------------------------------------------------------- statements *)
 
-Definition rtype_els (lp : bool) (F : tframe) (el : rels) : bool :=
-  match el with GNoElse => true | GElse b => is_some (rtype_block lp F b) end.
+Lemma pick_in {A} (l : list A) sel l' : pick l sel = Some l' -> forall x, In x l' -> In x l.
+Proof.
+  revert l'. induction sel as [|i r IH]; cbn; intros l' H x Hx.
+  - injection H as <-. destruct Hx.
+  - destruct (nth_error l i) eqn:E1; [|discriminate]. destruct (pick l r) eqn:E2; [|discriminate].
+    injection H as <-. destruct Hx as [<-|Hx]; [eapply nth_error_In; eauto|eauto].
+Qed.
 
-Definition PS (s : stmt) : Prop := forall lp E E' mv,
-  static_stmt lp E s = SOk E' -> mvok E mv ->
-  exists s' mv', lower_stmt (erase E) mv s = LOk (s', erase E', mv') /\
-                 rtype_stmt lp (flat E) (tree_of_stmt s') = Some (flat E') /\
+Lemma sty_args_all E l : sty_args E l = SOk Datatypes.tt -> forall e, In e l -> sty E e = SOk TyInt.
+Proof.
+  induction l as [|x r IH]; cbn; intros H e He; [destruct He|].
+  destruct (sty E x) as [[| |]|] eqn:Ex; try discriminate.
+  destruct He as [<-|He]; [exact Ex|eauto].
+Qed.
+
+Section Typed.
+Variable P : prog.
+Variable S0 : fsigs.
+Hypothesis Hsig : forall f d, find_fn f P = Some d -> find_sig f S0 = Some (length (fparams d), fret d).
+
+Lemma sty_c_rtype sc E c ot :
+  sty_c P E c = SOk ot ->
+  rtype_c S0 (flat E) (tree_of_c (lower_c P sc c)) = Some ot /\
+  (forall t, ot = Some t -> cty_c P (erase E) c = t).
+Proof.
+  destruct c as [e|f pos kw]; cbn [sty_c lower_c tree_of_c rtype_c cty_c].
+  - destruct (sty E e) as [t|k] eqn:He; [|discriminate]. intros [= <-].
+    rewrite (sty_rtype sc _ _ _ He). split; [reflexivity|]. intros t0 [= <-]. now apply cty_sty.
+  - destruct (find_fn f P) as [d|] eqn:Hf; [|discriminate].
+    destruct (sty_args E (pos ++ map snd kw)) as [[]|] eqn:Ha; [|discriminate].
+    destruct (select (fparams d) (length pos) 0 (map fst kw)) as [sel|] eqn:Hsel; [|discriminate].
+    destruct (Nat.eqb (length sel) (length pos + length kw)); [|discriminate].
+    destruct (pick (pos ++ map snd kw) sel) as [ws'|] eqn:Hp; [|discriminate].
+    intros [= <-]. rewrite pick_map, Hp. cbn [option_map tree_of_c rtype_c].
+    rewrite (Hsig _ _ Hf). rewrite !map_length.
+    rewrite (pick_length _ _ _ Hp), (select_length _ _ _ _ _ Hsel), Nat.eqb_refl. cbn [andb].
+    assert (Hall : forallb (fun a => is_i64 (rtype_expr (flat E) a)) (map tree_of (map (lower_expr sc) ws')) = true).
+    { apply forallb_forall. intros a Ha'. rewrite map_map in Ha'. apply in_map_iff in Ha'. destruct Ha' as (e & <- & He).
+      rewrite (sty_rtype sc E e TyInt); [reflexivity|]. eapply sty_args_all; eauto. eapply pick_in; eauto. }
+    rewrite Hall. split; [reflexivity|]. intros t Ht. destruct (fret d); [now injection Ht as <-|discriminate].
+Qed.
+
+Definition rtype_els (rt lp : bool) (F : tframe) (el : rels) : bool :=
+  match el with GNoElse => true | GElse b => is_some (rtype_block S0 rt lp F b) end.
+
+Definition PS (s : stmt) : Prop := forall rt lp E E' mv,
+  static_stmt P rt lp E s = SOk E' -> mvok E mv ->
+  exists s' mv', lower_stmt P (erase E) mv s = LOk (s', erase E', mv') /\
+                 rtype_stmt S0 rt lp (flat E) (tree_of_stmt s') = Some (flat E') /\
                  mvok E' mv' /\ mono mv mv'.
-Definition PB (b : block) : Prop := forall lp E E' mv,
-  static_block lp E b = SOk E' -> mvok E mv ->
-  exists b' mv', lower_block (erase E) mv b = LOk (b', erase E', mv') /\
-                 rtype_block lp (flat E) (tree_of_block b') = Some (flat E') /\
+Definition PB (b : block) : Prop := forall rt lp E E' mv,
+  static_block P rt lp E b = SOk E' -> mvok E mv ->
+  exists b' mv', lower_block P (erase E) mv b = LOk (b', erase E', mv') /\
+                 rtype_block S0 rt lp (flat E) (tree_of_block b') = Some (flat E') /\
                  mvok E' mv' /\ mono mv mv'.
-Definition PE (el : els) : Prop := forall lp E mv,
-  static_els lp E el = SOk Datatypes.tt -> mvok E mv ->
-  exists el' mv', lower_els (erase E) mv el = LOk (el', mv') /\
-                  rtype_els lp (flat E) (tels el') = true /\ mvok E mv' /\ mono mv mv'.
+Definition PE (el : els) : Prop := forall rt lp E mv,
+  static_els P rt lp E el = SOk Datatypes.tt -> mvok E mv ->
+  exists el' mv', lower_els P (erase E) mv el = LOk (el', mv') /\
+                  rtype_els rt lp (flat E) (tels el') = true /\ mvok E mv' /\ mono mv mv'.
 
 (* a block checked in a fresh scope *)
-Lemma scoped (b : block) lp f E Eb mv sc0 :
-  PB b -> static_block lp (f :: E) b = SOk Eb -> mvok (f :: E) mv -> sc0 = erase (f :: E) ->
-  exists b' sc1 mv', lower_block sc0 mv b = LOk (b', sc1, mv') /\
-                 is_some (rtype_block lp (flat (f :: E)) (tree_of_block b')) = true /\ mono mv mv'.
+Lemma scoped (b : block) rt lp f E Eb mv sc0 :
+  PB b -> static_block P rt lp (f :: E) b = SOk Eb -> mvok (f :: E) mv -> sc0 = erase (f :: E) ->
+  exists b' sc1 mv', lower_block P sc0 mv b = LOk (b', sc1, mv') /\
+                 is_some (rtype_block S0 rt lp (flat (f :: E)) (tree_of_block b')) = true /\ mono mv mv'.
 Proof.
-  intros IH Hs Hm ->. destruct (IH _ _ _ _ Hs Hm) as (b' & mv' & Hl & Ht & _ & Hmo).
+  intros IH Hs Hm ->. destruct (IH _ _ _ _ _ Hs Hm) as (b' & mv' & Hl & Ht & _ & Hmo).
   exists b', (erase Eb), mv'. split; [exact Hl|]. split; [now rewrite Ht|exact Hmo].
 Qed.
 
@@ -136,11 +178,11 @@ Lemma static_lowers : (forall s, PS s) /\ (forall b, PB b) /\ (forall el, PE el)
 Proof.
   apply stmt_block_els_ind; unfold PS, PB, PE.
   - (* assignment *)
-    intros k x ann e lp E E' mv Hs Hm. cbn [static_stmt] in Hs.
-    destruct (sty E e) as [t|v] eqn:Hty; [|discriminate].
-    pose proof (cty_sty _ _ _ Hty) as Hc. pose proof (sty_rtype (erase E) _ _ _ Hty) as Hr.
-    assert (Hann : forall d, ann_ok ann d = true -> match ann with Some a => a | None => cty (erase E) e end = (match ann with Some _ => d | None => t end)).
-    { intros d Ha. destruct ann as [a|]; cbn in *; [|exact Hc]. destruct a, d; cbn in Ha; try discriminate; reflexivity. }
+    intros k x ann c rt lp E E' mv Hs Hm. cbn [static_stmt] in Hs.
+    destruct (sty_c P E c) as [[t|]|v] eqn:Hty; try discriminate.
+    destruct (sty_c_rtype (erase E) _ _ _ Hty) as [Hr Hc0]. specialize (Hc0 t eq_refl).
+    assert (Hann : forall d, ann_ok ann d = true -> match ann with Some a => a | None => cty_c P (erase E) c end = (match ann with Some _ => d | None => t end)).
+    { intros d Ha. destruct ann as [a|]; cbn in *; [|exact Hc0]. destruct a, d; cbn in Ha; try discriminate; reflexivity. }
     cbn [lower_stmt]. unfold sexists. rewrite slookup_erase.
     destruct k.
     + destruct (tlookup x E) as [[vt vm]|] eqn:Hx; cbn [option_map].
@@ -148,41 +190,41 @@ Proof.
         destruct (ty_eqb vt t) eqn:Ht; cbn in Hs; [|discriminate].
         destruct (ann_ok ann vt); [|discriminate]. injection Hs as <-.
         rewrite (Hm x vt Hx).
-        exists (GAssign x (lower_expr (erase E) e)), mv. split; [reflexivity|].
+        exists (GAssign x (lower_c P (erase E) c)), mv. split; [reflexivity|].
         split; [|split; [exact Hm|apply mono_refl]].
         cbn [tree_of_stmt rtype_stmt]. rewrite <- tlookup_flat, Hx, Hr, Ht. reflexivity.
       * destruct (ann_ok ann t) eqn:Ha; [|discriminate]. injection Hs as <-.
         rewrite (Hann t Ha). replace (match ann with Some _ => t | None => t end) with t by (destruct ann; reflexivity).
-        exists (GLet x false (lower_expr (erase E) e)), mv. rewrite erase_tbind. split; [reflexivity|].
+        exists (GLet x false (lower_c P (erase E) c)), mv. rewrite erase_tbind. split; [reflexivity|].
         split; [|split; [now apply mvok_bind_imm|apply mono_refl]].
         cbn [tree_of_stmt rtype_stmt]. rewrite Hr, flat_tbind. reflexivity.
     + destruct (in_top x E); [discriminate|]. destruct (ann_ok ann t) eqn:Ha; [|discriminate]. injection Hs as <-.
       rewrite (Hann t Ha). replace (match ann with Some _ => t | None => t end) with t by (destruct ann; reflexivity).
-      exists (GLet x false (lower_expr (erase E) e)), mv. rewrite erase_tbind. split; [reflexivity|].
+      exists (GLet x false (lower_c P (erase E) c)), mv. rewrite erase_tbind. split; [reflexivity|].
       split; [|split; [now apply mvok_bind_imm|apply mono_refl]].
       cbn [tree_of_stmt rtype_stmt]. rewrite Hr, flat_tbind. reflexivity.
     + destruct (in_top x E); [discriminate|]. destruct (ann_ok ann t) eqn:Ha; [|discriminate]. injection Hs as <-.
       rewrite (Hann t Ha). replace (match ann with Some _ => t | None => t end) with t by (destruct ann; reflexivity).
-      exists (GLet x true (lower_expr (erase E) e)), (x :: mv). rewrite erase_tbind. split; [reflexivity|].
+      exists (GLet x true (lower_c P (erase E) c)), (x :: mv). rewrite erase_tbind. split; [reflexivity|].
       split; [|split; [now apply mvok_bind_mut|apply mem_cons_mono]].
       cbn [tree_of_stmt rtype_stmt]. rewrite Hr, flat_tbind. reflexivity.
   - (* compound assignment *)
-    intros o x e lp E E' mv Hs Hm. cbn [static_stmt] in Hs.
+    intros o x e rt lp E E' mv Hs Hm. cbn [static_stmt] in Hs.
     destruct (tlookup x E) as [[[| |] [|]]|] eqn:Hx; try discriminate.
     destruct (sty E e) as [[| |]|v] eqn:Hty; try discriminate. injection Hs as <-.
-    exists (GAssign x (lower_expr (erase E) (EBin (binop_of_cop o) (EVar x) e))), mv.
+    exists (GAssign x (IPure (lower_expr (erase E) (EBin (binop_of_cop o) (EVar x) e)))), mv.
     split; [reflexivity|]. split; [|split; [exact Hm|apply mono_refl]].
-    cbn [tree_of_stmt rtype_stmt]. rewrite <- tlookup_flat, Hx.
+    cbn [tree_of_stmt tree_of_c rtype_stmt rtype_c]. rewrite <- tlookup_flat, Hx.
     assert (Hb : sty E (EBin (binop_of_cop o) (EVar x) e) = SOk TyInt).
     { cbn [sty]. rewrite Hx, Hty. destruct o; reflexivity. }
     rewrite (sty_rtype (erase E) _ _ _ Hb). reflexivity.
   - (* if *)
-    intros c th IHth el IHel lp E E' mv Hs Hm. cbn [static_stmt] in Hs.
+    intros c th IHth el IHel rt lp E E' mv Hs Hm. cbn [static_stmt] in Hs.
     destruct (sty E c) as [[| |]|v] eqn:Hc; try discriminate.
-    destruct (static_block lp ([] :: E) th) as [Eth|v] eqn:Hth; [|discriminate].
-    destruct (static_els lp E el) as [[]|v] eqn:Hel; [|discriminate]. injection Hs as <-.
-    destruct (IHel _ _ _ Hel Hm) as (el' & mv1 & Hle & Hte & Hm1 & Mo1).
-    destruct (scoped th lp [] E Eth mv1 ([] :: erase E) IHth Hth (mvok_push_nil _ _ Hm1) eq_refl) as (th' & sct & mv2 & Hlt & Htt & Mo2).
+    destruct (static_block P rt lp ([] :: E) th) as [Eth|v] eqn:Hth; [|discriminate].
+    destruct (static_els P rt lp E el) as [[]|v] eqn:Hel; [|discriminate]. injection Hs as <-.
+    destruct (IHel _ _ _ _ Hel Hm) as (el' & mv1 & Hle & Hte & Hm1 & Mo1).
+    destruct (scoped th rt lp [] E Eth mv1 ([] :: erase E) IHth Hth (mvok_push_nil _ _ Hm1) eq_refl) as (th' & sct & mv2 & Hlt & Htt & Mo2).
     exists (GIf (lower_expr (erase E) c) th' el'), mv2. cbn [lower_stmt].
     rewrite Hle. cbv beta iota. rewrite Hlt. split; [reflexivity|].
     split; [|split; [eapply mvok_mono; [exact Hm|eapply mono_trans; eauto]|eapply mono_trans; eauto]].
@@ -190,10 +232,10 @@ Proof.
     change (flat ([] :: E)) with (flat E) in Htt. rewrite Htt. cbn [andb].
     destruct el'; cbn [tels rtype_els] in Hte |- *; [reflexivity|]. now rewrite Hte.
   - (* while *)
-    intros c b IHb lp E E' mv Hs Hm. cbn [static_stmt] in Hs.
+    intros c b IHb rt lp E E' mv Hs Hm. cbn [static_stmt] in Hs.
     destruct (sty E c) as [[| |]|v] eqn:Hc; try discriminate.
-    destruct (static_block true ([] :: E) b) as [Eb|v] eqn:Hb; [|discriminate]. injection Hs as <-.
-    destruct (scoped b true [] E Eb mv ([] :: erase E) IHb Hb (mvok_push_nil _ _ Hm) eq_refl) as (b' & scb & mv1 & Hlb & Htb & Mo).
+    destruct (static_block P rt true ([] :: E) b) as [Eb|v] eqn:Hb; [|discriminate]. injection Hs as <-.
+    destruct (scoped b rt true [] E Eb mv ([] :: erase E) IHb Hb (mvok_push_nil _ _ Hm) eq_refl) as (b' & scb & mv1 & Hlb & Htb & Mo).
     exists (GWhile (lower_expr ([] :: erase E) c) b'), mv1. cbn [lower_stmt].
     rewrite Hlb. split; [reflexivity|].
     split; [|split; [eapply mvok_mono; eauto|exact Mo]].
@@ -208,10 +250,10 @@ Proof.
     + cbn [rtype_stmt]. now rewrite Htb.
     + cbn [rtype_stmt]. rewrite Hr. cbn [is_boolt andb]. now rewrite Htb.
   - (* for *)
-    intros x r b IHb lp E E' mv Hs Hm. cbn [static_stmt] in Hs.
+    intros x r b IHb rt lp E E' mv Hs Hm. cbn [static_stmt] in Hs.
     match type of Hs with match ?G with _ => _ end = _ => destruct G as [[]|v] eqn:Hargs; [|discriminate] end.
-    destruct (static_block true ([(x, (TyInt, false))] :: E) b) as [Eb|v] eqn:Hb; [|discriminate]. injection Hs as <-.
-    destruct (scoped b true [(x, (TyInt, false))] E Eb mv ([(x, TyInt)] :: erase E) IHb Hb (mvok_push_var _ _ _ Hm) eq_refl) as (b' & scb & mv1 & Hlb & Htb & Mo).
+    destruct (static_block P rt true ([(x, (TyInt, false))] :: E) b) as [Eb|v] eqn:Hb; [|discriminate]. injection Hs as <-.
+    destruct (scoped b rt true [(x, (TyInt, false))] E Eb mv ([(x, TyInt)] :: erase E) IHb Hb (mvok_push_var _ _ _ Hm) eq_refl) as (b' & scb & mv1 & Hlb & Htb & Mo).
     assert (Hint : forall e, sty_int E e = SOk Datatypes.tt -> sty E e = SOk TyInt).
     { intros e H. unfold sty_int in H. destruct (sty E e) as [[| |]|]; try discriminate; reflexivity. }
     destruct (lower_rargs (erase E) r) as [[ia iz] ist] eqn:Hlr.
@@ -228,41 +270,59 @@ Proof.
     repeat match goal with H : sty E ?e = SOk TyInt |- _ => rewrite (sty_rtype (erase E) _ _ _ H); clear H end;
     reflexivity.
   - (* println *)
-    intros e lp E E' mv Hs Hm. cbn [static_stmt] in Hs.
-    destruct (sty E e) as [t|v] eqn:Hty; [|discriminate]. injection Hs as <-.
-    exists (GPrint (lower_expr (erase E) e)), mv. split; [reflexivity|].
+    intros c rt lp E E' mv Hs Hm. cbn [static_stmt] in Hs.
+    destruct (sty_c P E c) as [[t|]|v] eqn:Hty; try discriminate. injection Hs as <-.
+    destruct (sty_c_rtype (erase E) _ _ _ Hty) as [Hr _].
+    exists (GPrint (lower_c P (erase E) c)), mv. split; [reflexivity|].
     split; [|split; [exact Hm|apply mono_refl]].
-    cbn [tree_of_stmt rtype_stmt]. now rewrite (sty_rtype (erase E) _ _ _ Hty).
-  - intros lp E E' mv Hs Hm. injection Hs as <-. exists GUnit, mv. repeat split; auto using mono_refl.
-  - intros lp E E' mv Hs Hm. cbn in Hs. destruct lp; [|discriminate]. injection Hs as <-.
+    cbn [tree_of_stmt rtype_stmt]. now rewrite Hr.
+  - (* expression statement *)
+    intros c rt lp E E' mv Hs Hm. cbn [static_stmt] in Hs.
+    destruct (sty_c P E c) as [ot|v] eqn:Hty; try discriminate. injection Hs as <-.
+    destruct (sty_c_rtype (erase E) _ _ _ Hty) as [Hr _].
+    exists (GExpr (lower_c P (erase E) c)), mv. split; [reflexivity|].
+    split; [|split; [exact Hm|apply mono_refl]].
+    cbn [tree_of_stmt rtype_stmt]. now rewrite Hr.
+  - (* return *)
+    intros oc rt lp E E' mv Hs Hm. cbn [static_stmt] in Hs. destruct oc as [c|].
+    + destruct (sty_c P E c) as [[[| |]|]|v] eqn:Hty; try discriminate.
+      destruct rt; [|discriminate]. injection Hs as <-.
+      destruct (sty_c_rtype (erase E) _ _ _ Hty) as [Hr _].
+      exists (GReturn (Some (lower_c P (erase E) c))), mv. split; [reflexivity|].
+      split; [|split; [exact Hm|apply mono_refl]].
+      cbn [tree_of_stmt rtype_stmt]. now rewrite Hr.
+    + destruct rt; [discriminate|]. injection Hs as <-.
+      exists (GReturn None), mv. repeat split; auto using mono_refl.
+  - intros rt lp E E' mv Hs Hm. injection Hs as <-. exists GUnit, mv. repeat split; auto using mono_refl.
+  - intros rt lp E E' mv Hs Hm. cbn in Hs. destruct lp; [|discriminate]. injection Hs as <-.
     exists GBreak, mv. repeat split; auto using mono_refl.
-  - intros lp E E' mv Hs Hm. cbn in Hs. destruct lp; [|discriminate]. injection Hs as <-.
+  - intros rt lp E E' mv Hs Hm. cbn in Hs. destruct lp; [|discriminate]. injection Hs as <-.
     exists GContinue, mv. repeat split; auto using mono_refl.
   - (* BNil *)
-    intros lp E E' mv Hs Hm. injection Hs as <-. exists GNil, mv. repeat split; auto using mono_refl.
+    intros rt lp E E' mv Hs Hm. injection Hs as <-. exists GNil, mv. repeat split; auto using mono_refl.
   - (* BCons *)
-    intros s IHs r IHr lp E E' mv Hs Hm. cbn [static_block] in Hs.
-    destruct (static_stmt lp E s) as [E1|v] eqn:H1; [|discriminate].
-    destruct (IHs _ _ _ _ H1 Hm) as (s' & mv1 & Hl1 & Ht1 & Hm1 & Mo1).
-    destruct (IHr _ _ _ _ Hs Hm1) as (r' & mv2 & Hl2 & Ht2 & Hm2 & Mo2).
+    intros s IHs r IHr rt lp E E' mv Hs Hm. cbn [static_block] in Hs.
+    destruct (static_stmt P rt lp E s) as [E1|v] eqn:H1; [|discriminate].
+    destruct (IHs _ _ _ _ _ H1 Hm) as (s' & mv1 & Hl1 & Ht1 & Hm1 & Mo1).
+    destruct (IHr _ _ _ _ _ Hs Hm1) as (r' & mv2 & Hl2 & Ht2 & Hm2 & Mo2).
     exists (GCons s' r'), mv2. cbn [lower_block]. rewrite Hl1, Hl2. split; [reflexivity|].
     split; [|split; [exact Hm2|eapply mono_trans; eauto]].
     cbn [tree_of_block rtype_block]. now rewrite Ht1.
   - (* ENone *)
-    intros lp E mv Hs Hm. exists GNoElse, mv. repeat split; auto using mono_refl.
+    intros rt lp E mv Hs Hm. exists GNoElse, mv. repeat split; auto using mono_refl.
   - (* EElse *)
-    intros b IHb lp E mv Hs Hm. cbn [static_els] in Hs.
-    destruct (static_block lp ([] :: E) b) as [Eb|v] eqn:Hb; [|discriminate].
-    destruct (scoped b lp [] E Eb mv ([] :: erase E) IHb Hb (mvok_push_nil _ _ Hm) eq_refl) as (b' & scb & mv1 & Hlb & Htb & Mo).
+    intros b IHb rt lp E mv Hs Hm. cbn [static_els] in Hs.
+    destruct (static_block P rt lp ([] :: E) b) as [Eb|v] eqn:Hb; [|discriminate].
+    destruct (scoped b rt lp [] E Eb mv ([] :: erase E) IHb Hb (mvok_push_nil _ _ Hm) eq_refl) as (b' & scb & mv1 & Hlb & Htb & Mo).
     exists (GElse b'), mv1. cbn [lower_els]. rewrite Hlb.
     split; [reflexivity|]. split; [|split; [eapply mvok_mono; eauto|exact Mo]].
     exact Htb.
   - (* EElif *)
-    intros c b IHb rest IHrest lp E mv Hs Hm. cbn [static_els] in Hs.
+    intros c b IHb rest IHrest rt lp E mv Hs Hm. cbn [static_els] in Hs.
     destruct (sty E c) as [[| |]|v] eqn:Hc; try discriminate.
-    destruct (static_block lp ([] :: E) b) as [Eb|v] eqn:Hb; [|discriminate].
-    destruct (IHrest _ _ _ Hs Hm) as (rest' & mv1 & Hlr & Htr & Hm1 & Mo1).
-    destruct (scoped b lp [] E Eb mv1 ([] :: erase E) IHb Hb (mvok_push_nil _ _ Hm1) eq_refl) as (b' & scb & mv2 & Hlb & Htb & Mo2).
+    destruct (static_block P rt lp ([] :: E) b) as [Eb|v] eqn:Hb; [|discriminate].
+    destruct (IHrest _ _ _ _ Hs Hm) as (rest' & mv1 & Hlr & Htr & Hm1 & Mo1).
+    destruct (scoped b rt lp [] E Eb mv1 ([] :: erase E) IHb Hb (mvok_push_nil _ _ Hm1) eq_refl) as (b' & scb & mv2 & Hlb & Htb & Mo2).
     exists (GElse (GCons (GIf (lower_expr (erase E) c) b' rest') GNil)), mv2. cbn [lower_els].
     rewrite Hlr. cbv beta iota. rewrite Hlb. split; [reflexivity|].
     split; [|split; [eapply mvok_mono; [exact Hm|eapply mono_trans; eauto]|eapply mono_trans; eauto]].
@@ -272,24 +332,120 @@ Proof.
     destruct rest'; cbn [tels rtype_els] in Htr |- *; [reflexivity|]. now rewrite Htr.
 Qed.
 
-Lemma mvok_init ps : mvok (param_env ps) [].
+(* a body that ends in return on every path keeps doing so after lowering *)
+Definition ends_ret_stmt (s : stmt) : bool :=
+  match s with
+  | SReturn _ => true
+  | SIf _ th el => ends_ret th && ends_ret_els el
+  | _ => false
+  end.
+
+Lemma ends_ret_last s : ends_ret (BCons s BNil) = ends_ret_stmt s.
+Proof. destruct s; reflexivity. Qed.
+
+Lemma ends_ret_lowers :
+  (forall s, forall sc mv s' sc' mv', ends_ret_stmt s = true -> lower_stmt P sc mv s = LOk (s', sc', mv') ->
+             ends_in_return (GCons (tree_of_stmt s') GNil) = true) /\
+  (forall b, forall sc mv b' sc' mv', ends_ret b = true -> lower_block P sc mv b = LOk (b', sc', mv') ->
+             ends_in_return (tree_of_block b') = true) /\
+  (forall el, forall sc mv el' mv', ends_ret_els el = true -> lower_els P sc mv el = LOk (el', mv') ->
+              exists eb, tels el' = GElse eb /\ ends_in_return eb = true).
 Proof.
-  intros x t H. unfold param_env in H. cbn in H.
+  apply stmt_block_els_ind; try (intros; cbn in *; discriminate).
+  - (* if *)
+    intros c th IHth el IHel sc mv s' sc' mv' He Hl. cbn [ends_ret_stmt] in He. apply andb_prop in He. destruct He as [H1 H2].
+    cbn [lower_stmt] in Hl.
+    destruct (lower_els P sc mv el) as [[el' mv1]|] eqn:Hle; [|discriminate].
+    destruct (lower_block P ([] :: sc) mv1 th) as [[[th' sct] mv2]|] eqn:Hlt; [|discriminate]. injection Hl as <- <- <-.
+    destruct (IHel _ _ _ _ H2 Hle) as (eb & Heb & Hre).
+    cbn [tree_of_stmt ends_in_return]. unfold tels in Heb. destruct el'; [discriminate|]. injection Heb as <-.
+    rewrite (IHth _ _ _ _ _ H1 Hlt), Hre. reflexivity.
+  - (* return *)
+    intros oc sc mv s' sc' mv' _ Hl. cbn [lower_stmt] in Hl. injection Hl as <- <- <-. reflexivity.
+  - (* BCons *)
+    intros s IHs r IHr sc mv b' sc' mv' He Hl. cbn [lower_block] in Hl.
+    destruct (lower_stmt P sc mv s) as [[[s1 sc1] mv1]|] eqn:Hs; [|discriminate].
+    destruct (lower_block P sc1 mv1 r) as [[[r1 sc2] mv2]|] eqn:Hr; [|discriminate]. injection Hl as <- <- <-.
+    destruct r as [|s2 r2].
+    + cbn [lower_block] in Hr. injection Hr as <- <- <-. rewrite ends_ret_last in He.
+      cbn [tree_of_block]. eapply IHs; eauto.
+    + assert (Hne : exists s2' r2', r1 = GCons s2' r2').
+      { cbn [lower_block] in Hr. destruct (lower_stmt P sc1 mv1 s2) as [[[s3 sc3] mv3]|]; [|discriminate].
+        destruct (lower_block P sc3 mv3 r2) as [[[r3 sc4] mv4]|]; [|discriminate]. injection Hr as <- <- <-. eauto. }
+      destruct Hne as (s2' & r2' & ->).
+      assert (He' : ends_ret (BCons s2 r2) = true) by (destruct s; exact He).
+      specialize (IHr _ _ _ _ _ He' Hr). cbn [tree_of_block] in *. exact IHr.
+  - (* EElse *)
+    intros b IHb sc mv el' mv' He Hl. cbn [lower_els] in Hl.
+    destruct (lower_block P ([] :: sc) mv b) as [[[b' scb] mv1]|] eqn:Hb; [|discriminate]. injection Hl as <- <-.
+    exists (tree_of_block b'). split; [reflexivity|]. eapply IHb; eauto.
+  - (* EElif *)
+    intros c b IHb rest IHrest sc mv el' mv' He Hl. cbn [ends_ret_els] in He. apply andb_prop in He. destruct He as [H1 H2].
+    cbn [lower_els] in Hl.
+    destruct (lower_els P sc mv rest) as [[rest' mv1]|] eqn:Hr; [|discriminate].
+    destruct (lower_block P ([] :: sc) mv1 b) as [[[b' scb] mv2]|] eqn:Hb; [|discriminate]. injection Hl as <- <-.
+    destruct (IHrest _ _ _ _ H2 Hr) as (eb & Heb & Hre).
+    eexists. split; [reflexivity|]. cbn [tree_of_block tree_of_stmt ends_in_return].
+    rewrite (IHb _ _ _ _ _ H1 Hb). unfold tels in Heb. destruct rest'; [discriminate|]. injection Heb as <-. now rewrite Hre.
+Qed.
+
+End Typed.
+
+(* ---------------------------------------------------------------- whole programs *)
+
+Definition psigs (l : prog) : fsigs := map (fun d => (fname d, (length (fparams d), fret d))) l.
+
+Lemma psigs_find l : forall f d, find_fn f l = Some d -> find_sig f (psigs l) = Some (length (fparams d), fret d).
+Proof.
+  induction l as [|x r IH]; intros f d H; cbn in *; [discriminate|].
+  destruct (f =? fname x); [now injection H as <-|auto].
+Qed.
+
+Lemma sigs_of_lowered P : forall l mv fs, lower_fns P mv l = LOk fs -> sigs_of (tree_of_fns fs) = psigs l.
+Proof.
+  induction l as [|x r IH]; intros mv fs H; cbn [lower_fns] in H.
+  - now injection H as <-.
+  - destruct (lower_block P (init_scopes (fparams x)) mv (fbody x)) as [[[b sc1] mv1]|]; [|discriminate].
+    destruct (lower_fns P mv1 r) as [rest|] eqn:Hr; [|discriminate]. injection H as <-.
+    cbn. f_equal. eapply IH; eauto.
+Qed.
+
+Lemma mvok_params ps mv : mvok (param_env ps) mv.
+Proof.
+  intros x t H. unfold param_env in H. cbn in H. exfalso.
   induction ps as [|p r IH]; cbn in H; [discriminate|].
   destruct (x =? p); [discriminate|]. now apply IH.
 Qed.
 
+Lemma static_defs_lower P (S0 : fsigs)
+  (Hsig : forall f d, find_fn f P = Some d -> find_sig f S0 = Some (length (fparams d), fret d)) :
+  forall l mv, static_defs P l = None ->
+  exists fs, lower_fns P mv l = LOk fs /\ forallb (rtype_fn S0) (tree_of_fns fs) = true.
+Proof.
+  induction l as [|d r IH]; intros mv H; cbn [static_defs] in H; [exists []; split; reflexivity|].
+  unfold static_def in H.
+  destruct (static_block P (fret d) false (param_env (fparams d)) (fbody d)) as [E'|k] eqn:Hs; [|discriminate].
+  destruct (negb (fret d) || ends_ret (fbody d)) eqn:Hret; [|discriminate].
+  destruct (proj1 (proj2 (static_lowers P S0 Hsig)) _ _ _ _ _ _ Hs (mvok_params _ mv)) as (b' & mv' & Hl & Ht & _ & _).
+  destruct (IH mv' H) as (rest & Hr & Hrt).
+  replace (erase (param_env (fparams d))) with (init_scopes (fparams d)) in Hl.
+  2:{ unfold init_scopes, param_env, erase. cbn. now rewrite map_map. }
+  exists ({| iname := fname d; iparams := fparams d; iret := fret d; ibody := b' |} :: rest).
+  cbn [lower_fns]. rewrite Hl, Hr. split; [reflexivity|].
+  unfold tree_of_fns in *. cbn [map forallb]. rewrite Hrt, andb_true_r.
+  unfold rtype_fn, tree_of_fn. cbn [rparams rret rbody iparams iret ibody].
+  replace (map (fun p => (p, (TyInt, false))) (fparams d)) with (flat (param_env (fparams d))).
+  2:{ unfold flat, param_env. cbn. apply app_nil_r. }
+  rewrite Ht. cbn [is_some andb].
+  destruct (fret d); [|reflexivity]. cbn [negb orb] in Hret |- *.
+  eapply (proj1 (proj2 (ends_ret_lowers P))); eauto.
+Qed.
+
 Lemma static_builds c :
   static_fn c = None ->
-  exists ib, lower_fn c = LOk ib /\ rtype_fn (params c) (tree_of_block ib) = true.
+  exists fs, lower_prog (cprog c) = LOk fs /\ rtype_prog (tree_of_fns fs) = true.
 Proof.
-  unfold static_fn. intros H. destruct (static_block false (param_env (params c)) (body c)) as [E'|k] eqn:Hs; [|discriminate].
-  destruct (proj1 (proj2 static_lowers) _ _ _ _ _ Hs (mvok_init _)) as (b' & mv' & Hl & Ht & _ & _).
-  exists b'. unfold lower_fn.
-  replace (init_scopes (params c)) with (erase (param_env (params c))).
-  2:{ unfold init_scopes, param_env, erase. cbn. now rewrite map_map. }
-  rewrite Hl. split; [reflexivity|].
-  unfold rtype_fn. replace (map (fun p => (p, (TyInt, false))) (params c)) with (flat (param_env (params c))).
-  2:{ unfold flat, param_env. cbn. apply app_nil_r. }
-  now rewrite Ht.
+  unfold static_fn, lower_prog. intros H. set (P := cprog c) in *.
+  destruct (static_defs_lower P (psigs P) (psigs_find P) P [] H) as (fs & Hl & Ht).
+  exists fs. split; [exact Hl|]. unfold rtype_prog. now rewrite (sigs_of_lowered P P [] fs Hl).
 Qed.
